@@ -96,11 +96,13 @@ def run_engine(c, pid):
         plan.append(("core3", ["enum", 3, 3, "core"]))
         plan.append(("words", ["enum", 7, 2, "words"]))
         plan.append(("ls", ["enum", 4, 2, "ls"]))
+        plan.append(("ls3", ["enum", 3, 3, "ls"]))
         bidi_n = 7
     else:
         plan.append(("core", ["enum", 3, 2, "core"]))
         plan.append(("words", ["enum", 5, 1, "words"]))
         plan.append(("ls", ["enum", 3, 2, "ls"]))
+        plan.append(("ls3", ["enum", 3, 3, "ls"]))     # three runs: a line may start with a whole run and go on
         bidi_n = 5
     if pid == "C08":
         plan = [p for p in plan if p[0] in ("core",)]
